@@ -14,6 +14,22 @@ OPS = {
     "cnt4": "N4:" + hexec.esc(GOOD), "cnt0": "N0:" + hexec.esc(GOOD),
     "asm-other": "@1\tA" + hexec.esc(GOOD) + "\t@0",
 }
+
+
+def file_ops():
+    """File entry points as history operations: a readable program and a path that does not exist, through the plain and
+    the counting call.  The files live in a fixed scratch directory so that a replay finds the same operations."""
+    import os
+    d = os.path.join(hexec.TMPROOT, "c15files")
+    os.makedirs(d, exist_ok=True)
+    good = os.path.join(d, "good.asm")
+    with open(good, "w") as f:
+        f.write(GOOD)
+    missing = os.path.join(d, "no-such-file.asm")
+    OPS.update({"file-good": "f" + hexec.esc(good), "file-missing": "f" + hexec.esc(missing),
+                "fcnt4-missing": "n4:" + hexec.esc(missing), "fcnt0-missing": "n0:" + hexec.esc(missing)})
+
+
 SETTER = {"all-STRICT": ("a", 0), "mov-NASM": ("m", 1), "sib-STRICT": ("s", 0)}
 PROBES = {
     "mov": "A" + hexec.esc("mov rax, 0x7fffffff\n"),
@@ -75,7 +91,7 @@ def step_checks(hline, obs):
             continue
         if op[0] == "o":
             off = int(op[1:])
-        elif op[0] in "AN" and not o.endswith(":E"):
+        elif op[0] in "ANfn" and not o.endswith(":E"):
             a = hexec.Asm(o)
             if a.lo is not None and a.lo >= 0 and off >= 0 and a.lo < off:
                 disc.add("below-start")
@@ -120,6 +136,7 @@ def run_level(rep, seqs, probes, phase):
 
 
 def replay(r, verbose=False):
+    file_ops()
     q = tuple(r["seq"])
     st, chunk = settings_after(q)
     o1 = hexec.run([hist(q, r["k"], r["probe"])], variant="asan", dangerous=True, nproc=1)[0]
@@ -133,13 +150,14 @@ def replay(r, verbose=False):
 
 def run(tier, seed):
     rep = Report(PROP, tier, seed)
-    rep.rule = ("all histories up to the depth bound over 16 operations (create/destroy a second instance with caller or "
+    rep.rule = ("all histories up to the depth bound over 20 operations (create/destroy a second instance with caller or "
                 "internal buffer, 3 option setters, chunk size 0|4, offset 0|5, successful / failing (first or second line) "
-                "assemble, counting with c=4|0, assemble on the other instance), each followed by asm_set_offset(k in {0,5}) and "
+                "assemble, counting with c=4|0, assemble on the other instance, file assembly of a readable and of a missing file, file counting of a missing file with c=4|0), each followed by asm_set_offset(k in {0,5}) and "
                 "one of 6 probes (option-, chunk- and failure-sensitive texts, a counting probe); oracle: the probe's (return, "
                 "offset, bytes, count) equal those of the same probe on a fresh instance configured with only the user-visible "
                 "settings of the history; a failed call never changes bytes below its start offset; ASan build, one forked "
                 "child per history. distinct_nontrivial = distinct histories")
+    file_ops()
     names = list(OPS)
     probes = list(PROBES)
     maxd = 3 if tier == "quick" else 4
@@ -151,7 +169,7 @@ def run(tier, seed):
         seqs = list(itertools.product(names, repeat=d))
         if d == 4:
             # depth 4: restrict the first operation to those that change hidden or visible state
-            seqs = [q for q in seqs if q[0] in ("asm-bad2", "cnt4", "chunk4", "all-STRICT", "new-int", "asm-good")]
+            seqs = [q for q in seqs if q[0] in ("asm-bad2", "cnt4", "chunk4", "all-STRICT", "new-int", "asm-good", "fcnt4-missing")]
         run_level(rep, seqs, probes, "depth%d" % d)
         seen += len(seqs)
         rep.bounds["history_depth"] = d
